@@ -125,6 +125,38 @@ func (p *Program) eval(c *Const, t *Type, depth int) (wm.W, error) {
 		if target == nil || target.Kind != DConst {
 			return wm.W{}, evalErr("dangling constant reference %s", c.Ref.Target.Name)
 		}
+		// A constant of another struct type (same field names, e.g. the same-named struct of
+		// another file): its VALUE is what is referred to - the literal cast to the constant's
+		// own type, that type's defaults included - and that value is then cast, field by field
+		// name, to the type expected here, whose remaining defaults are filled in.
+		if from, to := p.RootDef(target.Type), p.RootDef(t); from != nil && to != nil && from != to && from.IsStructLike() && to.IsStructLike() {
+			w, err := p.eval(target.Value, target.Type, depth+1)
+			if err != nil {
+				return wm.W{}, err
+			}
+			w = p.Fill(target.Type, w)
+			out := wm.Struct()
+			for _, fv := range w.Fields {
+				var ff, tf *Field
+				for _, x := range from.Fields {
+					if int16(x.ID) == fv.ID {
+						ff = x
+					}
+				}
+				if ff != nil {
+					for _, x := range to.Fields {
+						if x.Name == ff.Name {
+							tf = x
+						}
+					}
+				}
+				if tf == nil {
+					return wm.W{}, evalErr("constant of type %s has a field the expected type %s lacks", from.Name, to.Name)
+				}
+				out.Fields = append(out.Fields, wm.Field{ID: int16(tf.ID), V: fv.V})
+			}
+			return p.FillFields(to.Fields, out), nil
+		}
 		return p.eval(target.Value, t, depth+1)
 	}
 	switch r.K {
